@@ -1,4 +1,4 @@
-import MJ.Model.Safe
+import MJ.Model.SafeProg
 /-! Line driver for C02.  Input line: `<id>\t<step>|<step>|…` with steps
 
   D <cps>            data string            R <cps>     template text
@@ -59,6 +59,7 @@ partial def encV : V → String
   | .none => "N"
   | .undef => "U"
   | .seq xs => "L(" ++ ";".intercalate (xs.map encV) ++ ")"
+  | .map kvs => "M(" ++ ";".intercalate (kvs.map fun kv => "S0:" ++ encStr (ofData kv.1) ++ "=" ++ encV kv.2) ++ ")"
 
 def className : Class → String
   | .modelled => "modelled"
@@ -76,12 +77,162 @@ def failingStep : List Step → St → Nat → Nat
     | none => i
     | some st' => failingStep rest st' (i + 1)
 
+/-! ### programs as S-expressions
+
+  prog  := (prog <main> tmpl…)            tmpl := (tmpl <name> <parent|_> (macros macro…) stmt…)
+  macro := (macro <name> (params <p>…) stmt…)
+  stmt  := (text s) (emit e) (set n e) (setblock n (filt name p…)|(nofilt) stmt…) (filterblock name (ps p…) stmt…)
+           (for v e <0|1> (body stmt…) (else stmt…)) (if e (then stmt…) (else stmt…)) (with n e stmt…)
+           (callblock m (args e…) stmt…) (include name) (block name stmt…) (auto tru|fals|<s> stmt…)
+  expr  := (var n) (lit s) (int i) (bool b) (none) (cat a b) (add a b) (mul a n) (filt name (ps p…) e…)
+           (index a k) (slice a x y) (attr a key) (list e…) (dict (key e)…) (call m e…) (caller) (super)
+           (looprec e) (loopindex) (loopfirst) (not e) (cond c a b)
+  ctx   := (ctx (name cv)…)   cv := (s str) (i n) (b 0|1) (n) (l cv…) (m (key cv)…)
+  all names and strings are code-point lists as above -/
+
+inductive Sexp where
+  | atom (s : String)
+  | list (xs : List Sexp)
+  deriving Inhabited
+
+partial def parseSexps (cs : List Char) (acc : List Sexp) : Option (List Sexp × List Char) :=
+  match cs with
+  | [] => some (acc.reverse, [])
+  | ')' :: rest => some (acc.reverse, ')' :: rest)
+  | ' ' :: rest => parseSexps rest acc
+  | '(' :: rest =>
+    match parseSexps rest [] with
+    | some (xs, ')' :: rest') => parseSexps rest' (Sexp.list xs :: acc)
+    | _ => none
+  | _ =>
+    let tok := cs.takeWhile (fun c => c != ' ' && c != '(' && c != ')')
+    parseSexps (cs.drop tok.length) (Sexp.atom (String.ofList tok) :: acc)
+
+def parseSexp (s : String) : Option Sexp :=
+  match parseSexps s.toList [] with
+  | some ([x], []) => some x
+  | _ => none
+
+def sStr : Sexp → Option String
+  | .atom a => parseCps a
+  | _ => none
+def sNat : Sexp → Option Nat
+  | .atom a => a.toNat?
+  | _ => none
+
+mutual
+partial def toExpr : Sexp → Option Expr
+  | .list [.atom "var", n] => (sStr n).map .var
+  | .list [.atom "lit", s] => (sStr s).map .lit
+  | .list [.atom "int", .atom n] => n.toInt?.map .int
+  | .list [.atom "bool", .atom b] => some (.bool (b == "1"))
+  | .list [.atom "none"] => some .none
+  | .list [.atom "cat", a, b] => do some (.cat (← toExpr a) (← toExpr b))
+  | .list [.atom "add", a, b] => do some (.add (← toExpr a) (← toExpr b))
+  | .list [.atom "mul", a, n] => do some (.mul (← toExpr a) (← sNat n))
+  | .list (.atom "filt" :: name :: .list (.atom "ps" :: ps) :: args) => do
+    some (.filt (← sStr name) (← ps.mapM sNat) (← args.mapM toExpr))
+  | .list [.atom "index", a, k] => do some (.index (← toExpr a) (← sNat k))
+  | .list [.atom "slice", a, x, y] => do some (.slice (← toExpr a) (← sNat x) (← sNat y))
+  | .list [.atom "attr", a, k] => do some (.attr (← toExpr a) (← sStr k))
+  | .list (.atom "list" :: xs) => do some (.list (← xs.mapM toExpr))
+  | .list (.atom "dict" :: kvs) => do
+    some (.dict (← kvs.mapM fun (kv : Sexp) => match kv with
+      | Sexp.list [k, e] => do some ((← sStr k), (← toExpr e))
+      | _ => none))
+  | .list (.atom "call" :: m :: args) => do some (.call (← sStr m) (← args.mapM toExpr))
+  | .list [.atom "caller"] => some .caller
+  | .list [.atom "super"] => some .super
+  | .list [.atom "looprec", e] => do some (.loopRec (← toExpr e))
+  | .list [.atom "loopindex"] => some .loopIndex
+  | .list [.atom "loopfirst"] => some .loopFirst
+  | .list [.atom "not", e] => do some (.not (← toExpr e))
+  | .list [.atom "cond", c, a, b] => do some (.cond (← toExpr c) (← toExpr a) (← toExpr b))
+  | _ => none
+
+partial def toStmt : Sexp → Option Stmt
+  | .list [.atom "text", s] => (sStr s).map .text
+  | .list [.atom "emit", e] => (toExpr e).map .emit
+  | .list [.atom "set", n, e] => do some (.set (← sStr n) (← toExpr e))
+  | .list (.atom "setblock" :: n :: .list [.atom "nofilt"] :: body) => do
+    some (.setBlock (← sStr n) none (← body.mapM toStmt))
+  | .list (.atom "setblock" :: n :: .list (.atom "filt" :: name :: ps) :: body) => do
+    some (.setBlock (← sStr n) (some ((← sStr name), (← ps.mapM sNat))) (← body.mapM toStmt))
+  | .list (.atom "filterblock" :: name :: .list (.atom "ps" :: ps) :: body) => do
+    some (.filterBlock (← sStr name) (← ps.mapM sNat) (← body.mapM toStmt))
+  | .list [.atom "for", v, it, .atom r, .list (.atom "body" :: body), .list (.atom "else" :: els)] => do
+    some (.forIn (← sStr v) (← toExpr it) (r == "1") (← body.mapM toStmt) (← els.mapM toStmt))
+  | .list [.atom "if", c, .list (.atom "then" :: a), .list (.atom "else" :: b)] => do
+    some (.ifE (← toExpr c) (← a.mapM toStmt) (← b.mapM toStmt))
+  | .list (.atom "with" :: n :: e :: body) => do some (.withE (← sStr n) (← toExpr e) (← body.mapM toStmt))
+  | .list (.atom "callblock" :: m :: .list (.atom "args" :: args) :: body) => do
+    some (.callBlock (← sStr m) (← args.mapM toExpr) (← body.mapM toStmt))
+  | .list [.atom "include", n] => (sStr n).map .incl
+  | .list (.atom "block" :: n :: body) => do some (.block (← sStr n) (← body.mapM toStmt))
+  | .list (.atom "auto" :: a :: body) => do
+    let arg ← match a with
+      | .atom "tru" => some AutoArg.tru
+      | .atom "fals" => some AutoArg.fals
+      | x => (sStr x).map AutoArg.str
+    some (.auto arg (← body.mapM toStmt))
+  | _ => none
+end
+
+def toMacro : Sexp → Option MacroDef
+  | .list (.atom "macro" :: n :: .list (.atom "params" :: ps) :: body) => do
+    some { name := (← sStr n), params := (← ps.mapM sStr), body := (← body.mapM toStmt) }
+  | _ => none
+
+def toTmpl : Sexp → Option Tmpl
+  | .list (.atom "tmpl" :: n :: parent :: .list (.atom "macros" :: ms) :: body) => do
+    let par ← match parent with
+      | .atom "_" => some none
+      | x => (sStr x).map some
+    some { name := (← sStr n), parent := par, macros := (← ms.mapM toMacro), body := (← body.mapM toStmt) }
+  | _ => none
+
+def toProg : Sexp → Option Prog
+  | .list (.atom "prog" :: main :: ts) => do some { main := (← sStr main), templates := (← ts.mapM toTmpl) }
+  | _ => none
+
+partial def toCV : Sexp → Option CV
+  | .list [.atom "s", s] => (sStr s).map .str
+  | .list [.atom "i", .atom n] => n.toInt?.map .int
+  | .list [.atom "b", .atom b] => some (.bool (b == "1"))
+  | .list [.atom "n"] => some .none
+  | .list (.atom "l" :: xs) => (xs.mapM toCV).map .list
+  | .list (.atom "m" :: kvs) =>
+    (kvs.mapM fun (kv : Sexp) => match kv with
+      | Sexp.list [k, v] => do some ((← sStr k), (← toCV v))
+      | _ => none).map CV.map
+  | _ => none
+
+def toCtx : Sexp → Option (List (String × CV))
+  | .list (.atom "ctx" :: kvs) =>
+    kvs.mapM fun (kv : Sexp) => match kv with
+      | Sexp.list [k, v] => do some ((← sStr k), (← toCV v))
+      | _ => none
+  | _ => none
+
+def showSt (id : String) (st : St) : String :=
+  let last := match st.pool.getLast? with | some v => encV v | none => "-"
+  let tok := if decide (Clean st.out) then "clean" else "TAINTED-META"
+  s!"{id}\tOK\t{last}\t{encStr st.out}\t{tok}"
+
 def handle (line : String) : String :=
   match line.splitOn "\t" with
   | ["?class", name] =>
     match classOf name with
     | some c => s!"?class\t{name}\t{className c}"
     | none => s!"?class\t{name}\tunclassified"
+  | [id, "PROG", strict, prog, ctx] =>
+    match (parseSexp prog).bind toProg, (parseSexp ctx).bind toCtx with
+    | some p, some c =>
+      match execProg (strict == "1") p c with
+      | some st => showSt id st
+      | none => s!"{id}\tERR"
+    | none, _ => s!"{id}\tBAD program"
+    | _, none => s!"{id}\tBAD context"
   | [id, prog] =>
     match (prog.splitOn "|").mapM parseStep with
     | .error e => s!"{id}\tBAD {e}"
@@ -90,10 +241,7 @@ def handle (line : String) : String :=
       | none =>
         let k := failingStep steps {} 0
         s!"{id}\tERR\tstep {k}: {(prog.splitOn "|").getD k "?"}"
-      | some st =>
-        let last := match st.pool.getLast? with | some v => encV v | none => "-"
-        let tok := if decide (Clean st.out) then "clean" else "TAINTED-META"
-        s!"{id}\tOK\t{last}\t{encStr st.out}\t{tok}"
+      | some st => showSt id st
   | _ => "?\tBAD line"
 
 partial def loop (h : IO.FS.Stream) (out : IO.FS.Stream) : IO Unit := do
